@@ -166,3 +166,27 @@ Definition chk_gram_aa (r : res (@gout Q (@gstate Q (@aa_state Q)))) (o : obs_ru
   | Ok g => negb (or_err o) && all2 qclose (gs_w (g_s g)) (or_w o) && all2 ext_eqq (g_obj g) (or_obj o)
             && ext_eqq (g_stop g) (or_stop o)
   end.
+
+(* ---------------- MultiTaskBCD (one task): real _solve against dyadic mock kernels ---------------- *)
+Require Import SK.Skel.MultiTaskBCD.
+Definition mt_mock (m : mock) (p : nat) : @mt_kernels Q :=
+  {| mtk_lipschitz := Ok (m_lip m); mtk_is_penalized := m_pen m;
+     mtk_grad := fun w Xw ws => mk_grad_ws m w Xw ws;
+     mtk_subdiff := mk_subdiff m; mtk_fixpoint := mk_fixpoint;
+     mtk_intercept_step := mk_intercept_step m;
+     mtk_topk := mk_topk;
+     mtk_epoch := fun w Xw lip ws => mk_epoch m w Xw lip ws;
+     mtk_df_value := fun w Xw => mk_df_value m (firstn p w) Xw; mtk_pen_value := mk_pen_value m;
+     mtk_solve_z := mock_solve_z;
+     mtk_Xcols := fun Xw0 ws v =>
+       Ok (fold_left (fun acc jd => let '(j, d) := jd in upd acc (Z.to_nat (smp Xw0 j)) (Qred (nthQ acc (smp Xw0 j) + d))) (combine ws v) Xw0) |}.
+
+Record obs_mt := { om_err : bool; om_w : list Q; om_Xw : list Q; om_obj : list xq; om_stop : xq; om_iters : nat; om_epochs : nat }.
+Definition chk_mt (has_buf : bool) (r : res (@gout Q (@mt_state Q))) (o : obs_mt) : bool :=
+  match r with
+  | Err _ => om_err o
+  | Ok g =>
+      negb (om_err o) && all2 qclose (mt_W (g_s g)) (om_w o) && (negb has_buf || all2 qclose (mt_XW (g_s g)) (om_Xw o))
+      && all2 ext_eqq (g_obj g) (om_obj o) && ext_eqq (g_stop g) (om_stop o)
+      && (g_iters g =? om_iters o)%nat && (mt_epochs (g_s g) =? om_epochs o)%nat
+  end.
